@@ -7,7 +7,7 @@ import copy
 
 from ECAgent.Core import System
 
-from .common import SID, Model, Rec, RefSched, SystemNotFoundError, gen_flavour, gen_prio, gen_window, rec_class, spec_defaults
+from .common import model_class, SID, Model, Rec, RefSched, SystemNotFoundError, gen_flavour, gen_prio, gen_window, rec_class, spec_defaults
 
 PROPERTY = "C05"
 QUICK_RUNS = 24000
@@ -106,7 +106,7 @@ class StepEnd(System):
 class World:
     def __init__(self, sc, ctx):
         self.ctx = ctx
-        self.model = Model(seed=20260927)
+        self.model = model_class(sc, ctx)(seed=20260927)
         self.ref = RefSched()
         self.log = []          # events of the current timestep
         self.objs = {}
